@@ -7,8 +7,10 @@ package raft
 //
 //vx:pkg github.com/openbao/openbao/v2/internal/physical/raft
 //vx:include ../common/raft_models.go
-//vx:param entries quick=3 thorough=4
-//vx:param trimAll quick=0 thorough=1
+//vx:param entriesB quick=3 thorough=4
+//vx:param trimAllB quick=0 thorough=0
+//vx:param entriesR quick=3 thorough=3
+//vx:param trimAllR quick=0 thorough=1
 //vx:unwind 400
 
 import (
@@ -41,10 +43,13 @@ func vxRestart(f *FSM) *FSM {
 	return n
 }
 
+// 1 = every entry may ship a trim bound, 0 = only the second one (set by each entry from its tier parameter)
+var vxTrimAll int
+
 func vxMkLog(index int, data *LogData) *raft.Log {
 	// every entry may ship ANY trim bound for the fast-path tracker (the leader computes it from raft's applied
 	// index and the active transactions; replicas must stay correct whatever it is)
-	if (vxParam("trimAll") == 1 || index == 2) && vxBool("ships a trim bound") {
+	if (vxTrimAll == 1 || index == 2) && vxBool("ships a trim bound") {
 		lb := vxU64("LowestActiveIndex")
 		data.LowestActiveIndex = &lb
 	}
@@ -153,7 +158,8 @@ func vxApply(f *FSM, entries []vxEntry, cuts int, restartAfter int, what string)
 }
 
 func VxBatching() {
-	n := vxParam("entries")
+	n := vxParam("entriesB")
+	vxTrimAll = vxParam("trimAllB")
 	entries, states := vxBuildLog(n)
 	cuts := vxChoose("batch partition", 1<<(n-1))
 	f := vxApply(vxFSM(), entries, cuts, -1, "any batching")
@@ -168,7 +174,8 @@ func VxBatching() {
 }
 
 func VxRestartReplica() {
-	n := vxParam("entries")
+	n := vxParam("entriesR")
+	vxTrimAll = vxParam("trimAllR")
 	entries, states := vxBuildLog(n)
 	restartAfter := 1 + vxChoose("restart after entry", n-1)
 	f := vxApply(vxFSM(), entries, 0, restartAfter, "restarted replica")
